@@ -1,4 +1,5 @@
 import DoitModel.Proofs.C10
+import DoitModel.Proofs.C10NoState
 /-! # C10 — actions receive faithful inputs: getargs values, `changed`, `dependencies`, `targets`, calc_dep results
 
 Property theorems only (models: `Model/Inputs.lean` over `Model/Status.lean`; helpers: `Proofs/C10.lean`).
@@ -11,12 +12,6 @@ were processed, its execution and recording); every prefix; any number of tasks 
 "Differs from what the last successful execution saw" is judged by the rule of the configured checker. -/
 namespace DoitModel.C10
 open DoitModel.Status DoitModel.Inputs
-
-theorem ifaithful_take (h : List IOp) (k : Nat) (hf : IFaithful h = true) : IFaithful (h.take k) = true := by
-  unfold IFaithful at hf ⊢
-  rw [List.all_eq_true] at hf ⊢
-  intro o ho
-  exact hf o (List.mem_of_mem_take ho)
 
 /-- the statement of the `changed` / `dependencies` / `targets` clause at full strength: whenever the status check
     lets a task execute, the kwargs derived from the task object satisfy `changedOk` (every file dependency with no
@@ -66,6 +61,32 @@ theorem C10_changed_all_when_nothing_recorded (h : List IOp) (hf : IFaithful h =
   simp only [List.take_length] at this
   have hs' : (runI h).shadow t = none := hs
   exact (this hex hF).1 p hp (by simp [needsSeenAt, needsSeen, hs'])
+
+/-- the record of a task holds per-file state only for files that some definition of the task in the history named
+    as file_dep -/
+theorem C10_never_dep_has_no_state (h : List IOp) (t : Name) (p : Path) :
+    everDep h t p = false → ((runI h).rcd t).fstate p = none :=
+  no_state_of_never_dep h t p
+
+/-- **C10, `changed`, new dependencies.**  A file that is a file_dep of `t` for the first time in the history (no
+    earlier definition of `t` named it) is in `changed` whenever `t` executes and no uptodate item is false. -/
+theorem C10_changed_new_dep (h₀ : List IOp) (hf : IFaithful h₀ = true) (t : Name) (d : TaskDef) (always : Bool) (p : Path) :
+    let σ := runI (h₀ ++ [.base (.redefine t d)])
+    everDep h₀ t p = false → p ∈ (σ.defs t).deps → executes σ t always = true → falseItemAt σ t = false →
+    p ∈ (kwargsOf σ t).changed := by
+  intro σ hn hp hex hF
+  have hf' : IFaithful (h₀ ++ [.base (.redefine t d)]) = true := by
+    simp only [IFaithful, List.all_append, List.all_cons, List.all_nil, Bool.and_true, Bool.and_eq_true] at hf ⊢
+    exact ⟨hf, rfl⟩
+  have hrcd : (σ.rcd t).fstate p = none := by
+    have h0 := no_state_of_never_dep h₀ t p hn
+    have : σ.rcd = (runI h₀).rcd := by
+      simp only [σ, runI, List.foldl_append, List.foldl_cons, List.foldl_nil, istep, step]
+      split <;> rfl
+    rw [this]; exact h0
+  have := C10_changed_partial (h₀ ++ [IOp.base (.redefine t d)]) hf' (h₀ ++ [IOp.base (.redefine t d)]).length t always
+  simp only [List.take_length] at this
+  exact (this hex hF).2.1 p hp hrcd
 
 /-- a modified or new file dependency is never hidden behind a skip: the task is not up-to-date
     (so under every runner its action is executed and receives kwargs at all) -/
